@@ -23,6 +23,7 @@ structure PendingRead where
   lease : Bool
   readIndex : Nat
   verified : Bool := false
+  seq : Nat := 0                      -- position in the sequence of reads submitted to this leader
 deriving DecidableEq, Repr, Inhabited
 
 /-- The snapshot file being received (`r.snapshot`). -/
@@ -55,6 +56,15 @@ structure Node where
   recv : Option RecvSnap := none
   et : Nat := 300                     -- election timeout
   leaseDur : Nat := 100
+  /-- per-round shared counters of the reply goroutines (`votesRecieved`, `numResponses`):
+      (round id, count). A round is created by `sendRequestVoteToPeers` /
+      `sendAppendEntriesToPeers`; its goroutines keep the pointer for as long as they live. -/
+  rvRounds : List (Nat × Nat) := []
+  /-- replication rounds also remember the number of the last read submitted before them -/
+  aeRounds : List (Nat × Nat × Nat) := []
+  nextRound : Nat := 0
+  readSeq : Nat := 0                  -- `operationManager.readSequence`
+  prevoteWon : Bool := false
 deriving DecidableEq, Repr, Inhabited
 
 namespace Node
@@ -75,13 +85,13 @@ def becomeFollower (n : Node) (now leader term : Nat) : Node × List Effect :=
   let n1 := { n with role := .follower, term := term, leaderId := leader, votedFor := vote }
   let (n2, e2) := n1.resetSnapshots
   ({ n2 with pendingRep := [], pendingReads := [], shouldVerify := true, leaseExpiry := now,
-             cfgFuture := none },
+             cfgFuture := none, readSeq := 0 },
    [.setState term vote] ++ e2 ++ [.failFutures] ++ (if n.cfgFuture.isSome then [.failConfigFuture] else []))
 
 /-- `stepdown()`: leave leadership after being removed; term and vote are not persisted. -/
 def stepdown (n : Node) (now : Nat) : Node × List Effect :=
   ({ n with role := .follower, pendingRep := [], pendingReads := [], shouldVerify := true,
-            leaseExpiry := now },
+            leaseExpiry := now, readSeq := 0 },
    [.failFutures])
 
 /-- `nextConfiguration(next)`; `none` is the nil pointer the truncation fallback may pass. -/
